@@ -269,6 +269,7 @@ impl Monitor for C03 {
             let ast = match k % 8 {
                 7 => gen_many_groups(&mut rng),
                 6 => gen_pattern(&mut rng, &weak),
+                3 if k % 16 == 3 => gen_capture_loop_shape(&mut rng),
                 4 if k % 16 == 4 => {
                     // a parenthesis or bracket as a class member before groups that end where an
                     // empty group begins: analyze's nesting table must not count it as a group
